@@ -304,8 +304,11 @@ type LakeRun struct {
 	Tag      string // prefix for failure signatures, e.g. "C14"
 	Log      []string
 	Remote   bool
-	Merge    *MergeRec // when non-nil, merges and reverts are recorded for coq/Model/MergeCases.v
-	Coq      *CoqHist  // when non-nil, the history is also recorded for the Coq correspondence
+	// ReadObjBytes, when set, fetches the row file of a data object (used when the
+	// lake lives on a real file system instead of the in-memory engine)
+	ReadObjBytes func(id ksuid.KSUID) ([]byte, bool)
+	Merge        *MergeRec // when non-nil, merges and reverts are recorded for coq/Model/MergeCases.v
+	Coq          *CoqHist  // when non-nil, the history is also recorded for the Coq correspondence
 }
 
 func cloneSet(m map[ksuid.KSUID]bool) map[ksuid.KSUID]bool {
@@ -427,8 +430,15 @@ func (lr *LakeRun) ReadObject(id ksuid.KSUID) ([]string, error) {
 	if c, ok := lr.Contents[id]; ok {
 		return c, nil
 	}
-	path := fmt.Sprintf("%s/%s/data/%s.zng", lr.Env.URI.Path, lr.PoolID, id)
-	b, ok := lr.Env.Eng.Snapshot()[path]
+	var b []byte
+	var ok bool
+	path := fmt.Sprintf("%s/data/%s.zng", lr.PoolID, id)
+	if lr.ReadObjBytes != nil {
+		b, ok = lr.ReadObjBytes(id)
+	} else {
+		path = fmt.Sprintf("%s/%s/data/%s.zng", lr.Env.URI.Path, lr.PoolID, id)
+		b, ok = lr.Env.Eng.Snapshot()[path]
+	}
 	if !ok {
 		return nil, fmt.Errorf("object file %s does not exist", path)
 	}
@@ -503,6 +513,14 @@ func (lr *LakeRun) apply(op HOp, hop *string) (err error) {
 		if len(objs) == 0 {
 			return nil
 		}
+		// a lake-independent order: by contents (object ids and their order among
+		// equal key ranges differ from lake to lake)
+		keyOf := map[ksuid.KSUID]string{}
+		for _, o := range objs {
+			vals, _ := lr.ReadObject(o.ID)
+			keyOf[o.ID] = strings.Join(vals, "|")
+		}
+		sort.SliceStable(objs, func(i, j int) bool { return keyOf[objs[i].ID] < keyOf[objs[j].ID] })
 		var ids []ksuid.KSUID
 		seen := map[ksuid.KSUID]bool{}
 		for _, p := range op.Picks {
